@@ -27,6 +27,7 @@
 #include "dump.h"
 #include "recipe.h"
 #include <climits>
+#include <algorithm>
 using namespace SymEngine;
 typedef integer_class Z;
 
@@ -620,15 +621,90 @@ static std::string run_case(const std::string &line)
     return s;
 }
 
+// Cases run in forked children, a batch per child (forking once per case is too slow on a loaded
+// machine): the child writes one result line per case to a pipe; when it dies (signal) or hangs
+// (SIGALRM, re-armed per case) the case in progress gets CRASH:<sig> / HANG and a fresh child
+// continues with the next case.
+static void run_batch(const std::vector<std::string> &lines, size_t from, size_t to, unsigned timeout_s)
+{
+    size_t next = from;
+    while (next < to) {
+        int fd[2];
+        if (pipe(fd) != 0) {
+            std::cout << "PIPEFAIL\n";
+            next++;
+            continue;
+        }
+        fflush(stdout);
+        std::cout.flush();
+        pid_t pid = fork();
+        if (pid == 0) {
+            close(fd[0]);
+            struct rlimit rl;
+            rl.rlim_cur = rl.rlim_max = 0;
+            setrlimit(RLIMIT_CORE, &rl);
+            for (size_t k = next; k < to; k++) {
+                alarm(timeout_s);
+                std::string r;
+                try {
+                    r = run_case(lines[k]);
+                } catch (...) {
+                    r = "UNCAUGHT";
+                }
+                for (auto &c : r)
+                    if (c == '\n')
+                        c = ' ';
+                r += "\n";
+                size_t off = 0;
+                while (off < r.size()) {
+                    ssize_t w = write(fd[1], r.data() + off, r.size() - off);
+                    if (w <= 0)
+                        _exit(1);
+                    off += (size_t)w;
+                }
+            }
+            close(fd[1]);
+            _exit(0);
+        }
+        close(fd[1]);
+        std::string buf;
+        char tmp[65536];
+        ssize_t n;
+        size_t done = 0;
+        while ((n = read(fd[0], tmp, sizeof tmp)) > 0) {
+            buf.append(tmp, (size_t)n);
+            size_t pos;
+            while ((pos = buf.find('\n')) != std::string::npos) {
+                std::cout << buf.substr(0, pos) << "\n";
+                buf.erase(0, pos + 1);
+                done++;
+            }
+        }
+        close(fd[0]);
+        int status = 0;
+        waitpid(pid, &status, 0);
+        next += done;
+        if (next < to) { // the child died while working on lines[next]
+            std::string r = buf; // partial output, normally empty
+            if (WIFSIGNALED(status)) {
+                int sig = WTERMSIG(status);
+                r += (sig == SIGALRM) ? std::string("HANG") : "CRASH:" + std::to_string(sig);
+            } else
+                r += "CHILDEXIT";
+            std::cout << r << "\n";
+            next++;
+        }
+    }
+    std::cout.flush();
+}
+
 int main()
 {
+    std::vector<std::string> lines;
     std::string line;
-    while (std::getline(std::cin, line)) {
-        std::string r = verif::run_forked([&]() { return run_case(line); }, 300);
-        for (auto &c : r)
-            if (c == '\n')
-                c = ' ';
-        std::cout << r << "\n";
-    }
+    while (std::getline(std::cin, line))
+        lines.push_back(line);
+    for (size_t from = 0; from < lines.size(); from += 64)
+        run_batch(lines, from, std::min(lines.size(), from + 64), 600);
     return 0;
 }
